@@ -83,7 +83,10 @@ def parseCell (j : Json) : Except String Node := do
   | "tuple" => return .tuple (← parseRefs j "rs")
   | "int" => return .leaf (.int (← Driver.getInt j "v"))
   | "str" => return .leaf (.str (← Driver.getStr j "v"))
-  | "arr" => return .leaf (.arr (← (← Driver.getArr j "v").toList.mapM (·.getInt?)))
+  | "nd" =>
+    let shape ← (← Driver.getArr j "shape").toList.mapM (·.getNat?)
+    return .nd (← Driver.getNat j "b") (← Driver.getNat j "off") shape
+  | "buf" => return .buf (← (← Driver.getArr j "v").toList.mapM (·.getInt?))
   | "none" => return .leaf .none
   | "null" => return .null
   | t => throw s!"bad cell kind {t}"
@@ -91,7 +94,6 @@ def parseCell (j : Json) : Except String Node := do
 def valJson : Val → Json
   | .int i => Json.mkObj [("int", toJson i)]
   | .str s => Json.mkObj [("str", s)]
-  | .arr xs => Json.mkObj [("arr", toJson xs)]
   | .none => Json.str "none"
 
 /-- Structure reachable from `r`, with raw references. -/
@@ -109,6 +111,10 @@ def dump (h : Heap) : Nat → Ref → Json
       Json.mkObj [("t", "tuple"), ("r", toJson r), ("rs", Json.arr (rs.map (dump h fuel)).toArray)]
     | some (.leaf v) => Json.mkObj [("t", "leaf"), ("r", toJson r), ("v", valJson v)]
     | some .null => Json.mkObj [("t", "null"), ("r", toJson r)]
+    | some (.nd b off shape) =>
+      Json.mkObj [("t", "nd"), ("r", toJson r), ("b", toJson b), ("off", toJson off), ("shape", toJson shape),
+        ("v", toJson (ndElems h b off shape))]
+    | some (.buf _) => Json.mkObj [("t", "buf"), ("r", toJson r)]
 
 def dumpH (h : Heap) (r : Ref) : Json := dump h (h.size + 1) r
 
@@ -130,7 +136,6 @@ interned scalars (int/str/None leaves, the empty tuple) of equal value. -/
 def sameChild (h' : Heap) (a b : Ref) : Bool :=
   a == b ||
   match h'[a]?, h'[b]? with
-  | some (.leaf (.arr _)), _ => false
   | some (.leaf x), some (.leaf y) => x == y
   | some (.tuple []), some (.tuple []) => true
   | _, _ => false
@@ -146,36 +151,25 @@ def sameCell (h' : Heap) : Node → Node → Bool
   | .tuple rs, .tuple rs' => sameRefs h' rs rs'
   | a, b => a == b
 
-/-- Cells below `h.size` whose (shallow) content differs in `h'`. -/
+/-- Cells below `h.size` whose (shallow) content differs in `h'`.  An ndarray *object* counts as changed
+when the elements it shows changed (that is what Python can observe of it); buffers are not objects. -/
 def changed (h h' : Heap) : List Nat :=
   (List.range h.size).filter fun r =>
     match h[r]?, h'[r]? with
+    | some (.buf _), some (.buf _) => false
+    | some (.nd b o s), some (.nd b' o' s') =>
+      !(b == b' && o == o' && s == s' && ndElems h b o s == ndElems h' b' o' s')
     | some a, some b => !sameCell h' a b
     | _, _ => true
 
-/-- Does reading/writing along `p` from `r` index *inside* an ndarray leaf?  Such operations are outside
-the model (ndarrays are opaque leaves) and are skipped on both sides by the same rule. -/
-def touchesArr (forSet : Bool) (h : Heap) : Ref → Path → Bool
-  | _, [] => false
-  | _, .self :: _ => false
-  | r, k :: ks =>
-    if forSet && k == .skip then false
-    else if !forSet && (match k with | .lit _ _ => true | _ => false) then false
-    else match h[r]? with
-    | some (.leaf (.arr _)) => true
-    | _ => match index h r k with
-      | .ok c => touchesArr forSet h c ks
-      | .error _ => false
-
-/-- Does the structure below `r` contain an ndarray leaf (bounded walk)? -/
-def hasArr (h : Heap) : Nat → Ref → Bool
-  | 0, _ => false
-  | fuel + 1, r =>
-    match h[r]? with
-    | some (.leaf (.arr _)) => true
-    | some (.dict es) => es.any fun e => hasArr h fuel e.2
-    | some (.list rs) | some (.tuple rs) => rs.any (hasArr h fuel)
-    | _ => false
+/-- What `__get` returned: an object of the heap, or a new view / numpy scalar (`tag` makes the raw identity
+of a new view unique; the harness relabels identities to first-seen classes on both sides). -/
+def locJson (h : Heap) (tag : String) : Loc → Json
+  | .obj r => dumpH h r
+  | .view b off shape =>
+    Json.mkObj [("t", "nd"), ("r", Json.str tag), ("b", toJson b), ("off", toJson off), ("shape", toJson shape),
+      ("v", toJson (ndElems h b off shape))]
+  | .scalar x => Json.mkObj [("t", "leaf"), ("v", valJson (.int x))]
 
 def keysPaths : Keys → List Path
   | .path p => [p]
@@ -208,6 +202,7 @@ def runOp (strict : Bool) (st : St) (j : Json) : Except String (St × Json) := d
   let op ← Driver.getStr j "op"
   let h := st.heap
   let skipped : St × Json := ({ st with roots := st.roots.push none }, Json.mkObj [("skipped", true)])
+  if (j.getObjValAs? Bool "skip").toOption == some true then return skipped
   let root ← if op == "normalize" then pure 0 else
     match ← resolveRoot st j "root" with
     | some r => pure r
@@ -215,22 +210,21 @@ def runOp (strict : Bool) (st : St) (j : Json) : Except String (St × Json) := d
   match op with
   | "get" | "getd" =>
     let keys ← parseKeys (← j.getObjVal? "keys")
-    if (keysPaths keys).any (touchesArr false h root) then return skipped
-    let sentinel : GetRes := .one (h.size + 1000000)
-    let r := if op == "get" then getItem h root keys else getD h root keys sentinel
+    let sentinel : GetResV := .one (.obj (h.size + 1000000))
+    let r := if op == "get" then getItemV h root keys else getDV h root keys sentinel
+    let tag := s!"view@{st.roots.size}"
     let o := match r with
       | .error e => Json.mkObj [("err", Driver.errJson e)]
-      | .ok (.one r) =>
-        if r == h.size + 1000000 then Json.mkObj [("err", Json.null), ("default", true)]
-        else Json.mkObj [("err", Json.null), ("one", dumpH h r)]
-      | .ok (.many rs) => Json.mkObj [("err", Json.null), ("many", Json.arr (rs.map (dumpH h)).toArray)]
+      | .ok (.one l) =>
+        if l == .obj (h.size + 1000000) then Json.mkObj [("err", Json.null), ("default", true)]
+        else Json.mkObj [("err", Json.null), ("one", locJson h tag l)]
+      | .ok (.many ls) => Json.mkObj [("err", Json.null),
+          ("many", Json.arr (ls.zipIdx.map fun (l, i) => locJson h s!"{tag}.{i}" l).toArray)]
     return ({ st with roots := st.roots.push none }, o)
   | "set" =>
     let keys ← parseKeys (← j.getObjVal? "keys")
     let value ← Driver.getNat j "value"
     let inPlace ← Driver.getBool j "in_place"
-    if (keysPaths keys).any (touchesArr true h root) then return skipped
-    if (keysPaths keys).length > 1 && hasArr h (h.size + 1) value then return skipped
     let r := setItem strict inPlace h root keys value
     let root' := match r.2 with | .ok x => some x | .error _ => none
     return ({ heap := r.1, roots := st.roots.push root' }, resObs h r.1 root r)
@@ -240,8 +234,6 @@ def runOp (strict : Bool) (st : St) (j : Json) : Except String (St × Json) := d
       match a.toList with
       | [p, v] => do return ((← parsePath p), (← v.getNat?))
       | _ => throw "bad pair"
-    if pairs.any (fun pv => touchesArr true h root pv.1) then return skipped
-    if pairs.length > 1 && pairs.any (fun pv => hasArr h (h.size + 1) pv.2) then return skipped
     let r := copyAndUpdate strict h root pairs
     let root' := match r.2 with | .ok x => some x | .error _ => none
     return ({ heap := r.1, roots := st.roots.push root' }, resObs h r.1 root r)
